@@ -591,7 +591,7 @@ func handleInputStream(s *Session, handler Handler) (err error) {
 	// If this is a stanza, normalize the "from" attribute.
 	if stanza.Is(start.Name, s.in.XMLNS) {
 		for i, attr := range start.Attr {
-			if attr.Name.Local == "from" /*&& attr.Name.Space == start.Name.Space*/ {
+			if attr.Name.Local == "from" && attr.Name.Space == "" {
 				local := s.LocalAddr().Bare().String()
 				// Try a direct comparison first to avoid expensive JID parsing.
 				// TODO: really we should be parsing the JID here in case the server
@@ -656,7 +656,13 @@ func handleInputStream(s *Session, handler Handler) (err error) {
 	iqNeedsResp := typ == string(stanza.GetIQ) || typ == string(stanza.SetIQ)
 	// If the user did not write a response to an IQ, send a default one.
 	if iqOk && iqNeedsResp && !rw.wroteResp {
-		_, fromAttr := attr.Get(start.Attr, "from")
+		var fromAttr string
+		for _, a := range start.Attr {
+			if a.Name.Local == "from" && a.Name.Space == "" {
+				fromAttr = a.Value
+				break
+			}
+		}
 		var to jid.JID
 		if fromAttr != "" {
 			to, err = jid.Parse(fromAttr)
@@ -692,6 +698,12 @@ func getIDTyp(attrs []xml.Attr) (int, int, string, string) {
 	idIdx := -1
 	typIdx := -1
 	for idx, attr := range attrs {
+		// The stanza attributes are unqualified; an attribute with the same local
+		// name in some other namespace (or a namespace declaration such as
+		// xmlns:id) is unrelated.
+		if attr.Name.Space != "" {
+			continue
+		}
 		switch attr.Name.Local {
 		case "id":
 			id = attr.Value
